@@ -7,17 +7,22 @@ V = os.path.dirname(os.path.dirname(os.path.abspath(__file__)))
 
 CHECKS = {
     'C01': dict(
-        engine='oracle-server enumeration + libFuzzer fork-mode targets (harness/cpp/fz_*.cpp)',
-        technique='single-fault XML mutation enumeration + coverage-guided fuzzing (libFuzzer, ASan+UBSan) with a crash/clean-rejection oracle and CPU-time confirmation of hangs',
+        engine='oracle-server enumeration / history / scaling layers + libFuzzer fork-mode targets (harness/cpp/fz_*.cpp, harness/py/prop_C01.py, c01_fuzz.py, c01_scaling.py)',
+        technique='single-fault XML mutation enumeration + damaged-input histories + CPU-time scaling probe over input families + coverage-guided fuzzing (libFuzzer, ASan+UBSan) with a crash/clean-rejection oracle and three-fold confirmation of time-outs',
         category='exploration',
         text=('Every parsing entry point is driven with (1) every single structural edit of four seed documents under both '
-              'syntax switches and the document/pretty back ends, (2) libFuzzer fork-mode campaigns over XML, XTA, query and '
-              'per-block inputs with a keyword/tag dictionary, (3) a CPU-time scaling probe; the oracle is: the call returns or '
-              'throws std::exception, sanitizers stay silent, no child dies, no confirmed CPU time-out. Exploration: layer 1 is '
-              'exhaustive for its edit space, the rest is sampled.'),
-        design_ref='DESIGN.md 4/C01',
-        note=('Deciding build: clang 14 -O1 -DNDEBUG + ASan/UBSan (asserts off as in the RelWithDebInfo baseline). Leaks are '
-              'not checked. libxml2 itself is uninstrumented. Time-outs count only after three confirmations on CPU time.'),
+              'syntax switches and the document/pretty back ends, (1b) a rich XTA text damaged at every second (thorough: every) '
+              'token position followed by a valid probe in the same process, (2) libFuzzer fork-mode campaigns over XML, XTA, '
+              'query and per-block inputs with a keyword/tag dictionary, (3) a CPU-time scaling probe over 40 input families at '
+              'sizes n..8n up to 64 KiB; the oracle is: the call returns or throws std::exception, sanitizers stay silent, no '
+              'child dies, CPU time grows at most like size^2.5 and stays below 20 s. Exploration: layer 1 is exhaustive for '
+              'its edit space, the rest is sampled.'),
+        design_ref='DESIGN.md 4/C01 and 9.2',
+        note=('Deciding build: clang 14 -O1 -DNDEBUG + ASan/UBSan (asserts off as in the RelWithDebInfo baseline), run with a 2 GiB '
+              'stack limit because the instrumented build needs about 60 times the stack of the shipped build per recursion level. '
+              'Leaks are not checked. libxml2 itself is uninstrumented. Time-outs count only after three confirmations on CPU time. '
+              'A quick fuzz campaign (60-80 k executions per target) is a sampler: two of the crash defects repaired in /repo '
+              'showed only in a 1.5 M-execution campaign.'),
     ),
     'C02': dict(
         engine='oracle-server + Hypothesis + depth-2 enumeration (harness/py/prop_C02.py, gen_expr.py)',
@@ -187,7 +192,8 @@ CHECKS = {
               'forall exists are placed as edge guard and as location invariant. A small reference classifier derived from the '
               'statement decides must-reject (a clock atom under !, in an imply antecedent, under exists, under == != xor, or '
               'under a || with clock atoms on both sides) and must-accept (plain conjunction of atoms accepted alone); the '
-              'type checker must agree. The depth <= 2 space (26 337 formulas x 2 positions) is enumerated in every run.'),
+              'type checker must agree. The depth <= 2 space (26 337 formulas x 2 positions) is enumerated in every run, and every atom '
+              '(five relational operators, clock or difference on either side) is placed under every connective on either side.'),
         design_ref='DESIGN.md 4/C10',
         note=('Formulas are batched 40 per model (one edge and one location each) and judged by the path of the reported errors; '
               'every apparent violation is re-run alone before it counts. Which atoms are acceptable alone per position is measured.'),
